@@ -805,6 +805,8 @@ def gen_c06(tier, seed):
                         quick = op in ("MulInplace", "Div") or pos == 0
                     else:
                         quick = op in ("MulInplace", "Div") and pos in (0, K - 1)
+                        if wide and is_div and pos != 0:
+                            quick = False   # 16-bit SIMD divide: one lane position in the quick tier (known findings make each failing harness cost a replay)
                     if wide and is_div and cpu == "None":
                         # alpha axis sliced: [0,255] whole (contains alpha = 1), elsewhere 16-wide slices
                         # (a 256-wide slice of large alphas did not finish in 15 min)
